@@ -9,6 +9,7 @@ The reference model is *observational*: it records what the property's statement
 order, first outcome, deadlines) and what was observed (which connection received which job); it never predicts
 which blocked worker a job is handed to.  See DESIGN.md C16-C18.
 """
+import os
 import pickle
 
 import gevent
@@ -105,6 +106,10 @@ class Engine:
         jobs.time = self.clock
         jobs.random = self.chooser
         self.db = qserve.db()
+        try:
+            os.remove(os.path.join(_data_dir(), "workq.pickle"))  # a new server in an empty data directory
+        except OSError:
+            pass
         self.events = []
         self.worker_names, self.client_names = workers, clients
         self.all_conns = []
@@ -117,11 +122,28 @@ class Engine:
     def _bind(self):
         wq = self.db.workq
 
-        class P(self.qserve.QPlugin):
-            workq = wq
+        from qs import rpcserver
 
-        self.P = P
-        self.admin = P()  # connection used for add/kill/info: never blocks, never holds jobs
+        db_ = self.db
+
+        class P(rpcserver.RequestHandler, self.qserve.QPlugin):
+            """the request handler class exactly as qserve.Main.run composes it (rpcserver.RequestHandler first: its
+            shutdown() must reach QPlugin.shutdown() through the MRO)"""
+
+            def __init__(self, **kwargs):
+                super(P, self).__init__(**kwargs)
+
+            workq = wq
+            db = db_
+
+        self._nconn = getattr(self, "_nconn", 0)
+
+        def make():
+            self._nconn += 1
+            return P(client=(None, ("127.0.0.1", 40000 + self._nconn)), clientid="<%d 127.0.0.1:%d>" % (self._nconn, 40000 + self._nconn))
+
+        self.P = make
+        self.admin = make()  # connection used for add/kill/info: never blocks, never holds jobs
         self.workers = {w: self._conn("w%d" % w) for w in self.worker_names}
         self.clients = {c: self._conn("c%d" % c) for c in self.client_names}
         self.settle()
@@ -156,7 +178,7 @@ class Engine:
         channels = list(channels)
 
         def fn():
-            snap = conn.plugin.rpc_qpull(channels)
+            snap = conn.plugin(("qpull", {"channels": channels}))  # through Dispatcher.__call__, as the server does
             self.event("pulled", conn=conn, channels=channels, job=dict(snap))
 
         conn.submit(("pull", channels), fn)
@@ -169,7 +191,7 @@ class Engine:
         jobids = list(jobids)
 
         def fn():
-            snaps = conn.plugin.rpc_qwait(jobids)
+            snaps = conn.plugin(("qwait", {"jobids": jobids}))
             self.event("waited", conn=conn, jobids=jobids, jobs=[dict(s) for s in snaps])
 
         conn.submit(("wait", jobids), fn)
@@ -218,7 +240,13 @@ class Engine:
 
     def restart(self):
         """qserve.Main.savedb()/loaddb(): pickle the db, drop every connection, start from the pickle."""
-        blob = pickle.dumps(self.db, 2)
+        # through the real save/load path: Main.savedb() writes <data_dir>/workq.pickle, a new Main's loaddb() reads it
+        Main = self.qserve.Main
+        old = object.__new__(Main)
+        old.data_dir = _data_dir()
+        old.qpath = os.path.join(old.data_dir, "workq.pickle")
+        old.db = self.db
+        old.savedb()
         for c in self.all_conns:
             c.stale = True
             c.do_shutdown = False
@@ -226,7 +254,10 @@ class Engine:
                 c.g.kill(block=False)
         self.settle()
         self.events = []
-        self.db = pickle.loads(blob)
+        new = object.__new__(Main)
+        new.data_dir = old.data_dir
+        new.loaddb()
+        self.db = new.db
         self.all_conns = []
         self._bind()
 
@@ -237,6 +268,19 @@ class Engine:
             if not c.closed:
                 c.g.kill(block=False)
         self.settle()
+
+
+_DATA_DIR = []
+
+
+def _data_dir():
+    """one scratch data directory per process (removed with the run's work directory); the state file of an earlier
+    history is removed when an Engine is created"""
+    if not _DATA_DIR:
+        import tempfile
+
+        _DATA_DIR.append(tempfile.mkdtemp(prefix="qs-data-"))
+    return _DATA_DIR[0]
 
 
 # =======================================================================================
@@ -368,6 +412,16 @@ class Checker:
             self.waits[conn] = list(ids)
             self.labels.add("wait")
 
+    def op_waitslots(self, c, slots):
+        """wait for jobs by the explicit ids of their slots (see op_add), whatever their position in the history"""
+        ids = [i for i in ("j%d" % s for s in slots) if i in self.jobs and not self.dropped(i)]
+        if not ids:
+            return
+        conn = self.eng.clients[c]
+        if self.eng.start_wait(c, ids):
+            self.waits[conn] = list(ids)
+            self.labels.add("wait")
+
     def op_finish(self, w, k, kind):
         conn = self.eng.workers[w]
         if not conn.idle:
@@ -420,6 +474,11 @@ class Checker:
         self.eng.setinfo(None, jobid, info)
         mj.info.update(info)
         self.labels.add("info-update")
+
+    def op_setinfok(self, k, info):
+        ids = list(dict.fromkeys(self.order))
+        if ids:
+            self.op_setinfo(ids[k % len(ids)], dict(info))
 
     def op_killid_str(self, jobid):
         if jobid in self.jobs:
@@ -601,6 +660,8 @@ class Checker:
                 continue
             if bool(info.get("done")) != mj.done:
                 self.V("C17", "done-flag", "job %r: queue says done=%r, history says %r" % (jid, info.get("done"), mj.done))
+            elif any((info.get("info") or {}).get(k) != v for k, v in mj.info.items()):
+                self.V("C18" if "C18" in self.props else "C17", "info-lost", "job %r: info reported so far %r, queue now reports %r" % (jid, mj.info, info.get("info")))
             elif mj.done and (info.get("error") != mj.error or info.get("result") != mj.result):
                 self.V("C17", "outcome-changed", "job %r: first outcome result=%r error=%r, queue now reports result=%r error=%r" % (
                     jid, mj.result, mj.error, info.get("result"), info.get("error")))
